@@ -27,6 +27,7 @@ type RFiring struct {
 	Value    []byte
 	Index    uint64
 	ReqGas   uint64
+	Block    uint64 // block number announced in the request (0: absent)
 	Ret      []byte
 	Err      string
 	Answer   Answer
@@ -124,11 +125,23 @@ func Exec(s *Scn, o RunOpts) *Run {
 						f.Index = *q.Call.Index
 					}
 					f.Value = append([]byte{}, q.Call.Value...)
+					if q.Call.Gas != nil {
+						f.ReqGas = *q.Call.Gas
+					}
+					if q.Block != nil && q.Block.Number != nil {
+						f.Block = *q.Block.Number
+					}
 				case *atypes.PostContractCallInput:
 					if q.Call.Index != nil {
 						f.Index = *q.Call.Index
 					}
 					f.Value = append([]byte{}, q.Call.Value...)
+					if q.Call.Gas != nil {
+						f.ReqGas = *q.Call.Gas
+					}
+					if q.Block != nil && q.Block.Number != nil {
+						f.Block = *q.Block.Number
+					}
 					f.Ret = append([]byte{}, q.Call.Ret...)
 					if q.Call.Error != nil {
 						f.Err = *q.Call.Error
@@ -203,6 +216,9 @@ func Exec(s *Scn, o RunOpts) *Run {
 				if c.Gas != nil {
 					f.ReqGas = *c.Gas
 				}
+				if q.Block != nil && q.Block.Number != nil {
+					f.Block = *q.Block.Number
+				}
 			case *atypes.PostContractCallInput:
 				c := q.Call
 				f.From, f.To, f.Data, f.Value = common.BytesToAddress(c.From), common.BytesToAddress(c.To), append([]byte{}, c.Data...), append([]byte{}, c.Value...)
@@ -211,6 +227,9 @@ func Exec(s *Scn, o RunOpts) *Run {
 				}
 				if c.Gas != nil {
 					f.ReqGas = *c.Gas
+				}
+				if q.Block != nil && q.Block.Number != nil {
+					f.Block = *q.Block.Number
 				}
 				f.Ret = append([]byte{}, c.Ret...)
 				if c.Error != nil {
